@@ -55,14 +55,14 @@ const preamble = `(declare-sort Str 0)
 
 // SortReg registers struct datatypes and array sorts (ordered declarations).
 type SortReg struct {
-	decls    []string
-	structs  map[string]*StructInfo // sort name -> info
-	byType   map[string]string      // types.TypeString(struct) -> sort name
-	typeIDs  map[string]int
-	strLits  map[string]string // literal -> const name
-	litOrder []string
-	declNames []string // sort name of decls[i]
-	resolve  func(name string) bool // registers the struct datatype called name, if a program type matches
+	decls     []string
+	structs   map[string]*StructInfo // sort name -> info
+	byType    map[string]string      // types.TypeString(struct) -> sort name
+	typeIDs   map[string]int
+	strLits   map[string]string // literal -> const name
+	litOrder  []string
+	declNames []string               // sort name of decls[i]
+	resolve   func(name string) bool // registers the struct datatype called name, if a program type matches
 }
 
 type StructInfo struct {
@@ -472,7 +472,6 @@ func (r *SortReg) litText(name string) (string, bool) {
 	}
 	return "", false
 }
-
 
 // structDecls returns the datatype declarations of the struct sorts that the query text mentions (directly or through
 // another needed declaration), in registration order: what one function's query looks like must not depend on which
